@@ -77,6 +77,11 @@ EXTRA_ENVS = [  # further process-environment knobs, each run with hash seed 1 /
     {"COLUMNS": "20", "TERM": "dumb", "LANGUAGE": "fr:de", "LC_CTYPE": "POSIX"},
     {"XPROC_FAST_CLOCK": "1"},  # every clock reading is one hour after the previous one
     {"XPROC_DECIMAL_PREC": "2", "XPROC_WARN_ERROR": "1"},  # a host application with a coarse decimal context and warnings as errors
+    {"PYTHONIOENCODING": "ascii", "LANG": "C", "LC_ALL": "C", "PYTHONCOERCECLOCALE": "0", "PYTHONUTF8": "0"},  # ASCII-only standard streams
+    {"PYTHONIOENCODING": "latin-1:strict", "LANG": "POSIX", "LC_ALL": "POSIX", "PYTHONCOERCECLOCALE": "0", "PYTHONUTF8": "0"},
+    {"XPROC_RMCWD": "1"},  # the working directory has been removed
+    {"XPROC_CWD": "/proc"},  # a working directory in which no file can be created
+    {"XPROC_CWD": "/sys", "PYTHONHASHSEED": "3"},
 ]
 
 
@@ -88,6 +93,7 @@ def run_child(cfg):
                 "PYTHONPATH": VERIF + os.pathsep + os.path.join(REPO, "src"), "PYTHONDONTWRITEBYTECODE": "1"})  # fmt: skip
     env.update(extra)
     cmd = [sys.executable] + (["-O"] if opt else []) + ["-m", "mc.xproc_child"]
+    cwd = extra.get("XPROC_CWD", cwd)
     p = subprocess.run(cmd, cwd=cwd, env=env, capture_output=True, text=True, timeout=600)
     if p.returncode != 0:
         return cfg, None, p.stderr[-600:]
